@@ -21,6 +21,7 @@ VCHILD = os.environ.get("VCHILD", "/verif/target/debug/vchild")
 # only timing-free rules are judged
 VG = False
 VG_SLOW = 1
+FORCE = None
 
 
 def mono():
@@ -107,6 +108,8 @@ def parse_args():
             o["budget"] = float(v)
         elif k == "--scratch":
             o["scratch"] = v
+        elif k == "--replay":
+            o["replay"] = v
         elif k == "--valgrind":
             o["valgrind"] = v not in ("0", "")
         i += 2
@@ -294,11 +297,13 @@ MODES = {
 }
 
 
-def c05_scenario(rep, rng, scratch, idx):
-    mode_name = rng.choice(list(MODES))
+def c05_scenario(rep, rng, scratch, idx, force=None):
+    """`force` (replay): the recorded scenario description; its mode, template and option values replace the random choices."""
+    force = force or {}
+    mode_name = force.get("mode") or rng.choice(list(MODES))
     mode = mode_name.split("(")[0]
-    template = rng.choice(["idle", "midrun", "midrun", "at-exit", "grace", "back-to-back", "postpone", "delay-run", "three-step",
-                           "exit-in-delay", "exit-in-delay"])
+    template = force.get("template") or rng.choice(["idle", "midrun", "midrun", "at-exit", "grace", "back-to-back", "postpone", "delay-run", "three-step",
+                                                    "exit-in-delay", "exit-in-delay"])
     if template == "exit-in-delay" and mode not in ("queue", "restart"):
         template = "midrun"
     if template == "grace" and mode != "restart":
@@ -307,6 +312,8 @@ def c05_scenario(rep, rng, scratch, idx):
         template = "midrun"
     stop_timeout = rng.choice([300, 500, 300, 500, 0]) if mode == "restart" else rng.choice([300, 500])
     debounce = rng.choice([20, 40])
+    if "stop_timeout_ms" in force:
+        stop_timeout, debounce = force["stop_timeout_ms"], force.get("debounce_ms", debounce)
     flags = list(MODES[mode_name]) + ["--debounce", "%dms" % debounce, "--stop-timeout", "%dms" % stop_timeout]
     stop_sig = None
     if rng.random() < 0.4 and mode in ("restart", "signal") and "--signal" not in flags:
@@ -318,6 +325,8 @@ def c05_scenario(rep, rng, scratch, idx):
         mapped = rng.choice(["TERM", "INT"])
         flags += ["--map-signal", "%s:USR2" % mapped]
     postpone = template == "postpone" or rng.random() < 0.15
+    if "postpone" in force:
+        postpone = force["postpone"]
     if postpone:
         flags.append("--postpone")
     delay = 0
@@ -331,6 +340,11 @@ def c05_scenario(rep, rng, scratch, idx):
     elif template in ("midrun", "back-to-back", "three-step") and rng.random() < 0.25:
         delay = rng.choice([100, 200])
         flags += ["--delay-run", "%dms" % delay]
+    if "delay_run_ms" in force and force["delay_run_ms"] != delay:
+        flags = [f for f in flags if f != "--delay-run" and not (f.endswith("ms") and flags[flags.index(f) - 1] == "--delay-run")]
+        delay = force["delay_run_ms"]
+        if delay:
+            flags += ["--delay-run", "%dms" % delay]
     # expected stop / on-busy signal number
     if mode == "signal":
         busy_sig = stop_sig[1] if stop_sig else (10 if "--signal" in flags else 15)
@@ -339,6 +353,7 @@ def c05_scenario(rep, rng, scratch, idx):
     child_kind = {"idle": "quick", "at-exit": "medium", "exit-in-delay": "selfexit"}.get(template, rng.choice(["long", "long-ignore", "long-slowexit"]))
     if mode == "signal" and child_kind != "quick" and child_kind != "medium":
         child_kind = "long-ignore"  # the signal must not end the run, so that "no new start" is observable
+    child_kind = force.get("child") or child_kind
     run_ms = {"quick": 30, "medium": 400, "selfexit": 800, "long": 1300, "long-ignore": 1300, "long-slowexit": 1300}[child_kind]
     child = ["--exit-after", str(run_ms)]
     if child_kind == "long-ignore":
@@ -990,7 +1005,14 @@ def main():
     if not any(l["ev"] == "start" for l in read_log(st)) or not os.access(WATCHEXEC, os.X_OK):
         sys.stderr.write("wxcli: helper self-test failed or %s is missing: harness error\n" % WATCHEXEC)
         sys.exit(3)
-    global VG, VG_SLOW
+    global VG, VG_SLOW, FORCE
+    if o.get("replay"):
+        # replay: the recorded scenario's parameters, repeated for the whole budget (the races are real-time ones)
+        try:
+            with open(o["replay"]) as f:
+                FORCE = (json.load(f).get("witness") or {}).get("scenario") or None
+        except (OSError, ValueError):
+            FORCE = None
     if o.get("valgrind"):
         VG, VG_SLOW = True, 8
     LOAD.start()
@@ -1007,7 +1029,7 @@ def main():
             if VG and prop != "C18":
                 desc, wx, V, INC = vg_scenario(rep, lrng, scratch, i, prop)
             elif prop in ("C05", "C08"):
-                desc, wx, V, INC = c05_scenario(rep, lrng, scratch, i)
+                desc, wx, V, INC = c05_scenario(rep, lrng, scratch, i, force=FORCE)
                 if not INC:
                     c08_cli_tail(rep, lrng, wx, desc, V)
             elif prop == "C12":
